@@ -19,6 +19,8 @@ type c14Req struct {
 	name string
 	fd   *d.FileDescriptorProto
 	cfg  *dsl.Config
+	// param: additional command-line parameters next to config=
+	param string
 }
 
 func c14Requests() []c14Req {
@@ -40,7 +42,7 @@ func c14Requests() []c14Req {
 	sink.Cfg.PlanModifiers["Root.Str"] = []string{dsl.TFX + ".PM(910)", usu, dsl.TFX + ".PM(911)"}
 	sink.Cfg.PlanModifiers["Big.S"] = []string{usu, dsl.TFX + ".PM(912)", usu, dsl.TFX + ".PM(913)", dsl.TFX + ".PM(912)"}
 	sink.Cfg.Validators["Big.L"] = []string{dsl.TFX + ".V(914)", dsl.TFX + ".V(915)", dsl.TFX + ".V(914)", dsl.TFX + ".V(916)"}
-	out = append(out, c14Req{"sink+flags", sink.File.Descriptor(), sink.Cfg})
+	out = append(out, c14Req{"sink+flags", sink.File.Descriptor(), sink.Cfg, ""})
 	f5, c5 := c16Base()
 	c5.NameOverrides = map[string]string{"Shared.ID": "ident", "Alpha.Meta": "metadata", "Alpha.Meta.ID": "alpha_meta_ident", "Beta.Meta.Label": "beta_label", "Shared.Label": "generic_label"}
 	c5.Validators = map[string][]string{"Shared.ID": {dsl.TFX + ".V(1)"}, "Beta.Count": {dsl.TFX + ".V(2)", dsl.TFX + ".V(3)"}, "Beta.Meta.ID": {dsl.TFX + ".V(4)"}, "Tiny.N": {dsl.TFX + ".V(5)"}, "Alpha.Items.Tiny.N": {dsl.TFX + ".V(6)"}}
@@ -57,16 +59,23 @@ func c14Requests() []c14Req {
 	c5.PlanModifiers["Shared.Label"] = []string{dsl.TFX + ".PM(7)", usu, dsl.TFX + ".PM(8)"}
 	c5.PlanModifiers["Beta.Count"] = []string{usu, usu, dsl.TFX + ".PM(9)", dsl.TFX + ".PM(10)", dsl.TFX + ".PM(9)"}
 	c5.Validators["Gamma.KT"] = []string{dsl.TFX + ".V(7)", dsl.TFX + ".V(8)", dsl.TFX + ".V(7)", dsl.TFX + ".V(9)"}
-	out = append(out, c14Req{"f5+options", f5.Descriptor(), c5})
+	out = append(out, c14Req{"f5+options", f5.Descriptor(), c5, ""})
+	// the same request with command-line parameters on top of the file: every list option under its
+	// command-line name and, with a different value, under its YAML/README name (which the command line
+	// does not know and ignores); which spelling counts must not depend on the iteration order of the
+	// parameter map
+	out = append(out, c14Req{"f5+options+cli-both-spellings", f5.Descriptor(), c5,
+		"sensitive=Alpha.Meta.ID+Tiny.On,sensitive_fields=Beta.Meta.Label,computed_fields=Delta.Only,computed=Beta.Count,required_fields=Gamma.KS,required=Shared.ID," +
+			"exclude_fields=Gamma.Deep.Tags,exclude=Alpha.Items,custom_duration=Duration,duration_custom_type=OtherDuration,sort=true,sort_output=false"})
 	// shapes with several embedded parents, several oneof groups and custom types (sorted)
 	for _, c := range space.F4()[2:] {
 		v := space.Variant(c, true, false, "flags")
 		v.File.Pkg, v.File.Name = "shapes", "shapes.proto"
-		out = append(out, c14Req{"shape:" + c.Tags["vt"], v.File.Descriptor(), v.Cfg})
+		out = append(out, c14Req{"shape:" + c.Tags["vt"], v.File.Descriptor(), v.Cfg, ""})
 	}
 	min := space.F1("X")[0]
 	min.File.Pkg, min.File.Name = "minimal", "minimal.proto"
-	out = append(out, c14Req{"minimal", min.File.Descriptor(), min.Cfg})
+	out = append(out, c14Req{"minimal", min.File.Descriptor(), min.Cfg, ""})
 	return out
 }
 
@@ -123,7 +132,7 @@ func checkC14(r *Run) int {
 				if trace {
 					env = append(env, "VERIF_MAPTRACE=1")
 				}
-				return &gExec{Label: rq.name + " sched=" + sched, FD: rq.fd, YAML: yaml, Env: env}
+				return &gExec{Label: rq.name + " sched=" + sched, FD: rq.fd, YAML: yaml, Env: env, Param: rq.param}
 			}
 			a, b := mk("-", true), mk("-", true)
 			r.runAll([]*gExec{a, b}, overlayBin)
